@@ -230,6 +230,9 @@ class W3World(World):
             'disagree': rng.random() < 0.25,   # forced off below when open findings are avoided
             'p_crash': rng.choice([0.0, 0.15, 0.35]),
             'avoid_known': rng.random() < 0.8,
+            # one aggregate names its delegation models after the delegation ids themselves (graph id == delegation
+            # id; legal: the ids only have to be distinct among the models a broker combines)
+            'named_after_delegation': rng.random() < 0.15,
             'mix': {'send': 6, 'deliver': 10, 'duplicate': 2, 'drop': 2, 'resend': 3, 'offline': 3, 'comeback': 3,
                     'snapshot': 2, 'rollback': 2, 'partition': 2, 'rewrite': 1},
             'step_cap': 80,
@@ -411,6 +414,8 @@ class W3World(World):
         info = self.ams[am]
         info['version'] += 1
         guids = {d: 'adm-%s-%s-v%d' % (am, d, info['version']) for d in DEL_IDS}
+        if self.cfg.get('named_after_delegation') and am == sorted(self.ams)[0]:
+            guids = {d: d for d in DEL_IDS}
         pre = self.state(info['arm_id'])
         try:
             adms = self.arm(am).generate_adms(delegation_guids=guids)
@@ -550,6 +555,19 @@ class W3World(World):
             if canon(norm) != canon(exp):
                 self.flag('C13', 'rewrite_only_key', {}, 're-keying partition %s changed more than the key: %s' %
                           (gid, state_diff(norm, exp, 'after', 'expected')))
+            elif s.get('again', True):
+                # re-keying to the key the entries already have changes nothing at all
+                try:
+                    NetworkXADMGraph(graph_id=gid, importer=self.imp).rewrite_delegations(real_adm_id='real-' + gid)
+                    post2 = self.state(gid)
+                    if canon(post2) != canon(post):
+                        self.flag('C13', 'rewrite_only_key', {'symptom': 'same_key_not_idempotent'},
+                                  're-keying partition %s to the key it already has changed it: %s' %
+                                  (gid, state_diff(post2, post, 'after', 'before')))
+                except Exception as e:
+                    self.flag('C13', 'rewrite_only_key', {'symptom': 'raised', 'exc': type(e).__name__, 'second': True},
+                              're-keying partition %s to the key it already has raised %s: %s' %
+                              (gid, type(e).__name__, str(e)[:300]))
             self.imp.delete_graph(graph_id=gid)
         # the original is left untouched *as its API shows it*: what the aggregate reports as each element's
         # delegations after a partition was re-keyed is what its stored properties say, and partitioning it once
